@@ -2,6 +2,7 @@ package main
 
 import (
 	"fmt"
+	"go/constant"
 	"go/token"
 	"go/types"
 	"os"
@@ -42,7 +43,15 @@ type CallSite struct {
 	Instr  ssa.CallInstruction
 }
 
-func short(s string) string { return strings.ReplaceAll(s, Mod+"/", "am/") }
+var abbrev = strings.NewReplacer(
+	Mod+"/", "am/",
+	"google.golang.org/protobuf/types/known/timestamppb.", "timestamppb.",
+	"google.golang.org/protobuf/proto.", "proto.",
+	"github.com/prometheus/common/model.", "model.",
+	"github.com/prometheus/client_golang/prometheus.", "prometheus.",
+)
+
+func short(s string) string { return abbrev.Replace(s) }
 func long(s string) string  { return strings.ReplaceAll(s, "am/", Mod+"/") }
 
 // Load loads and type-checks every package of dir and builds SSA.
@@ -305,4 +314,19 @@ func (e *Eng) NamedType(pkg, name string) *types.Named {
 		}
 	}
 	return nil
+}
+
+// ConstInt looks up an integer constant of a package by name.
+func (e *Eng) ConstInt(pkg, name string) (int64, bool) {
+	pkg = long(pkg)
+	for _, p := range e.Prog.AllPackages() {
+		if p.Pkg.Path() == pkg {
+			if o := p.Pkg.Scope().Lookup(name); o != nil {
+				if c, ok := o.(*types.Const); ok {
+					return constant.Int64Val(constant.ToInt(c.Val()))
+				}
+			}
+		}
+	}
+	return 0, false
 }
